@@ -23,7 +23,8 @@ def main():
             "observed). Written by independent sub-agents from the property text only (round 1: `_a`/`_b`/`_c`; round 2, asked "
             "for changes that need scale, boundary values or rarely exercised paths to show: `_r2`; round 3, aimed at the glue "
             "around the core and at interactions of features: `_r3`; round 4, confined to the small files no earlier round had "
-            "touched: `_r4`); all pass the 76 existing "
+            "touched: `_r4`; round 5, by theme -- performance work, API evolution, plugins / interop: `_r5`; round 6, by theme -- "
+            "numerical robustness, data-structure refactors, defensive programming: `_r6`); all pass the 76 existing "
             "tests. Results of `harness/promote.py` (quick tier of the property's own check); %d changes, %d detected, %d with "
             "a concrete failing input:\n\n| change | detected | how | first line of the report |\n|---|---|---|---|\n"
             % (len(rows), sum(1 for r in res.values() if r["detected"]), sum(1 for r in res.values() if r["concrete"])))
